@@ -1,6 +1,6 @@
 SPECIFICATION Spec
 INVARIANTS
-  C01_NilMeansAcked C01_ErrorsExact C01_CompletionOnce C01_NoStrayWrites C01_DupOnlyFromLostAck
+  C01_NilMeansAcked C01_ErrorsExact C01_CompletionOnce C01_CompletionEvery C01_NoStrayWrites C01_DupOnlyFromLostAck
   C07_Order C07_OrderInRequest C08_Limits C08_RejectedUnsent C08_RejectedExactly C08_NoStuckCall C08_SingleTP
   C09w_AfterClose C09w_CloseMeansDrained C09w_AttemptsBounded C09w_CloseReturns
 PROPERTIES C09w_QuietAfterClose
